@@ -51,3 +51,41 @@ def run(ctx):
     if missing:
         ctx.floor_failures.append("scoped decoder(s) not found (renamed?): %s" % missing[:4])
     ctx.floor("B1.sites", total, int(sum(scope.values()) * 0.6))
+    node_readers_guarded(ctx)
+
+
+def node_readers_guarded(ctx):
+    """B3 NODE-READERS-GUARDED: the read-side B-tree node views (btree::interior::InteriorNode, btree::leaf::LeafNode — not the *Mut
+    writers) take offsets and lengths from the page bytes.  Every range index into the page with a non-constant bound is
+    dominated by an ordering comparison (the `ensure!(offset + len <= PAGE_SIZE)` / bail idiom) in the same function; a slice with
+    bounds read from a corrupted slot and no such check panics.  This is the repo's idiom check (who-must-check), not a proof that
+    the comparison is sufficient — sufficiency is B1's business for the functions in its frozen scope."""
+    from model import operand_place
+    m = ctx.m
+    n = 0
+    for f in sorted(m.fns.values(), key=lambda f: f.id):
+        if f.kind == "closure":
+            continue
+        if not (f.id.startswith("btree::interior::InteriorNode::<'a>::") or f.id.startswith("btree::leaf::LeafNode::<'a>::")):
+            continue
+        k = 0
+        for c in f.calls:
+            if not ("ops::Index<std::ops::Range" in c.full or "ops::Index<std::ops::RangeFrom" in c.full or "ops::Index<std::ops::RangeTo" in c.full):
+                continue
+            if "[u8]" not in c.full:
+                continue
+            n += 1
+            guarded = False
+            for d in f.dominators().get(c.bb, ()):
+                t = f.blocks[d]["t"]
+                if t[0] == "switch" and t[2] == "bool":
+                    pl = operand_place(t[1])
+                    kk, p, neg = f.origin(pl[0]) if pl and not pl[1] else (None, None, False)
+                    if kk == "rvalue" and p[0] == "bin" and p[1] in ("Gt", "Ge", "Lt", "Le"):
+                        guarded = True
+            ctx.ob("B3.NODE-READERS-GUARDED", "%s#%d" % (f.id.split("::", 2)[-1], k), guarded,
+                   "page slice dominated by a bounds comparison" if guarded else
+                   "a slice of the page with bounds taken from the page itself is not preceded by any bounds comparison: a corrupted slot "
+                   "(offset/length beyond the page) panics here instead of returning an error", c.loc())
+            k += 1
+    ctx.floor("B3.reader_slice_sites", n, 5)
